@@ -114,8 +114,18 @@ def race_phase(run, tier, wd):
     lines = [{k: v for k, v in r.items() if k != "report"} for r in recs]
     vlib.write_ndjson(os.path.join(rd, "rt.ndjson"), lines)
     vlib.stage_specs(rd, ["TraceScan.tla"])
-    r = el.tlc_trace(rd, "TraceScan", os.path.join(rd, "rt.ndjson"), {}, ["C20_RaceFree", "C20_AllErrorsKept", "C20_Outcome"], [], "ts",
+    # Verdicts: a reported race, or a wrong outcome (Run succeeding although a scanner failed, Close not returning).  That the
+    # aggregated error names EVERY failing scanner is what ScanPhase.tla's guarded append gives, but the property does not demand it
+    # (an implementation reporting only the first failure is race-free): a difference there is drift, not a violation.
+    r = el.tlc_trace(rd, "TraceScan", os.path.join(rd, "rt.ndjson"), {}, ["C20_RaceFree", "C20_Outcome"], [], "ts",
                      spec="MonitorSpec")
+    if r.ok:
+        r2 = el.tlc_trace(rd, "TraceScan", os.path.join(rd, "rt.ndjson"), {}, ["C20_AllErrorsKept"], [], "ts2", spec="MonitorSpec")
+        run.cov["all_concurrent_failures_reported"] = bool(r2.ok)
+        if not r2.ok and r2.kind == "invariant":
+            vlib.log("DRIFT: some concurrent scanner failures are missing from Run's error although no race was reported "
+                     "(ScanPhase.tla keeps all of them); not a violation of C20")
+            run.cov["model_binding"] = "drift"
     run.cov["states"] += r.distinct
     run.cov["transitions"] += r.generated
     run.cov["traces_validated_against_impl"] += len(recs)
